@@ -41,7 +41,7 @@ BOUNDS = {
     "quick": dict(n=3, k=3, shards=64),
     "thorough": dict(n=4, k=3, shards=512),
 }
-TIME_CAP = {"quick": 600, "thorough": 3000}
+TIME_CAP = {"quick": 1800, "thorough": 7200}
 
 
 def bounds(tier):
